@@ -49,7 +49,7 @@ o 240202#B2 b todo to move %bob
 }
 
 EVENTS = ["edit_body_a", "kind_a", "add_note_a", "del_note_a", "move_note", "add_page_c",
-          "del_page_b", "rename_b_d", "title_tags_a", "header_b", "drop_last_tag", "R", "Rp", "D"]
+          "del_page_b", "rename_b_d", "restore_b", "title_tags_a", "header_b", "drop_last_tag", "R", "Rp", "D"]
 
 QUERIES = [
     "S note O alpha G none", "S note W #shared O alpha G none", "S note W o O alpha G none",
@@ -122,6 +122,7 @@ def apply_edit(zd: Path, ev: str, guards: dict) -> bool:
         b = _bfile(zd)
         if b is None:
             return False
+        guards["b_text"] = b.read_text()
         b.unlink()
         return True
     if ev == "rename_b_d":
@@ -129,6 +130,20 @@ def apply_edit(zd: Path, ev: str, guards: dict) -> bool:
         if not b.exists():
             return False
         b.rename(zd / "sub/d.zo")
+        return True
+    if ev == "restore_b":
+        # the page comes back under its old name, byte-identical to what was
+        # indexed before it vanished (restored from a backup / renamed back)
+        b = zd / "sub/b.zo"
+        if b.exists() or guards.get("restored", 0) >= 1:
+            return False
+        guards["restored"] = 1
+        d = zd / "sub/d.zo"
+        if d.exists():
+            d.rename(b)
+        else:
+            b.parent.mkdir(parents=True, exist_ok=True)
+            b.write_text(guards.get("b_text") or BASE["sub/b.zo"])
         return True
     if ev == "title_tags_a":
         t = a.read_text()
@@ -295,6 +310,16 @@ def make_inits(day: dt.date):
     s2 = B.St(path=str(p2), day=d2, hist=[], guards=g2, extra={"init": "after-stamped-edit"})
     s2.key = H.digest([D.state_digest(p2, d2), sorted(g2.items())])
     inits.append(s2)
+    # a page vanished and the index already followed (delete, reindex)
+    p3 = Z.copy_zdir(base, tag="c06i")
+    g3: dict = {}
+    apply_edit(p3, "del_page_b", g3)
+    r = Z.db_reindex(p3, day)
+    if not Z.cli_ok(r):
+        raise H.HarnessError("initial reindex failed: " + r.err[-500:])
+    s3 = B.St(path=str(p3), day=day, hist=[], guards=g3, extra={"init": "after-page-deleted-and-reindexed"})
+    s3.key = H.digest([D.state_digest(p3, day), sorted(g3.items())])
+    inits.append(s3)
     return inits
 
 
@@ -305,14 +330,17 @@ def run(ctx: F.Ctx):
     inits = make_inits(day)
     total = F.Report()
     for s in inits:
-        rep = B.search(ctx, [s], EVENTS, step, depth, max_states=None if ctx.quick else 30000)
+        # the two derived starting points are themselves 2 steps deep
+        d = depth if s.extra["init"] in ("indexed", "pending-new-note") else depth - 1
+        rep = B.search(ctx, [s], EVENTS, step, d, max_states=None if ctx.quick else 30000)
         total.merge(rep)
     meta = {
         "rule": (
-            "BFS from 3 initial states (indexed two-page directory; same with a ZID-less note "
-            "pending; same after an earlier stamped edit) over 14 events: edit a body, change a "
+            "BFS from 4 initial states (indexed two-page directory; same with a ZID-less note "
+            "pending; same after an earlier stamped edit; same after a page was deleted and the "
+            "index followed) over 15 events: edit a body, change a "
             "todo's kind, add a ZID-less note, delete a note, move a note between pages, add a page, "
-            "delete a page, rename a page, edit title-line tags, edit a section header, drop the "
+            "delete a page, rename a page, bring the vanished page back byte-identical, edit title-line tags, edit a section header, drop the "
             "last holder of a tag, plain reindex, reindex of one explicit path, advance the day. "
             "Each edit is enabled a bounded number of times. Every transition copies the real "
             "directory and runs the real command in a fresh process. Oracle in every state reached "
@@ -320,7 +348,7 @@ def run(ctx: F.Ctx):
             "structural invariants of M3, and 12 queries answered identically by both. Non-trivial "
             "= judged states whose history contains at least one edit."
         ),
-        "bounds": {"depth": depth, "events": EVENTS, "initial_states": 3, "frozen_day": day.isoformat()},
+        "bounds": {"depth": depth, "depth_from_derived_initial_states": depth - 1, "events": EVENTS, "initial_states": 4, "frozen_day": day.isoformat()},
         "assumptions": ["edits are the listed deterministic text transformations of one small directory",
                         "states reached by a path-restricted reindex are judged at the next plain reindex, as the statement says"],
         "exhaustive": True,
